@@ -145,16 +145,19 @@ def run_reject(case):
             if len(s) >= 1800:
                 continue
             n += 1
-            try:
-                parse(s)
-            except Exception:
-                continue
-            finally:
-                left = os.listdir(tmp)
-                if left:
-                    vs.append(V(f"side-effect:{case['cls']}", f"parsing {s!r} created {left}", None))
-            if len(vs) < 3:
-                vs.append(V(f"accepted-forbidden:{case['cls']}", f"parse_function accepted {s!r} ({case['cls']} must be rejected when parsed)", dict(expr=s)))
+            # every string is parsed twice: a rejected string must stay rejected when it is submitted again
+            for attempt in (1, 2):
+                try:
+                    parse(s)
+                except Exception:
+                    continue
+                finally:
+                    left = os.listdir(tmp)
+                    if left:
+                        vs.append(V(f"side-effect:{case['cls']}", f"parsing {s!r} created {left}", None))
+                if len(vs) < 3:
+                    vs.append(V(f"accepted-forbidden:{case['cls']}", f"parse_function accepted {s!r} on attempt {attempt} ({case['cls']} must be rejected when parsed)", dict(expr=s)))
+                break
     finally:
         os.chdir(cwd)
         shutil.rmtree(tmp, ignore_errors=True)
@@ -207,18 +210,32 @@ def exprs(depth, full=False):
     return levels[depth]
 
 
-def ref_eval(node, env):
+def ref_eval(node, env, eps=0.0):
+    """reference evaluation; with eps != 0 every intermediate floating point result is displaced by the relative amount eps (about one ulp), which
+    shows whether the expression amplifies rounding errors of its intermediates (e.g. ln(0.5**x) for tiny x) - such positions are not compared"""
+    if eps:
+        # eps = [magnitude, generator state]: the sign of each displacement comes from a fixed linear congruential sequence, so that the
+        # displacements of the two operands of a subtraction are not all in the same direction
+        v = _ref_eval(node, env, eps)
+        if isinstance(node, (ast.BinOp, ast.Call)) and np.asarray(v).dtype.kind == "f":
+            eps[1] = (eps[1] * 1103515245 + 12345) % (1 << 31)
+            return v * (1.0 + (eps[0] if (eps[1] >> 16) & 1 else -eps[0]))
+        return v
+    return _ref_eval(node, env, eps)
+
+
+def _ref_eval(node, env, eps):
     if isinstance(node, ast.Expression):
-        return ref_eval(node.body, env)
+        return ref_eval(node.body, env, eps)
     if isinstance(node, ast.Constant):
         return float(node.value)
     if isinstance(node, ast.Name):
         return env[node.id]
     if isinstance(node, ast.UnaryOp):
-        v = ref_eval(node.operand, env)
+        v = ref_eval(node.operand, env, eps)
         return -v if isinstance(node.op, ast.USub) else +v
     if isinstance(node, ast.BinOp):
-        a, b = ref_eval(node.left, env), ref_eval(node.right, env)
+        a, b = ref_eval(node.left, env, eps), ref_eval(node.right, env, eps)
         if isinstance(node.op, ast.Add):
             return a + b
         if isinstance(node.op, ast.Sub):
@@ -230,10 +247,10 @@ def ref_eval(node, env):
         if isinstance(node.op, ast.Div):
             return ref_div(a, b)
     if isinstance(node, ast.Compare):
-        a, b = ref_eval(node.left, env), ref_eval(node.comparators[0], env)
+        a, b = ref_eval(node.left, env, eps), ref_eval(node.comparators[0], env, eps)
         return (a < b) if isinstance(node.ops[0], ast.Lt) else (a > b)
     if isinstance(node, ast.Call):
-        args = [ref_eval(a, env) for a in node.args]
+        args = [ref_eval(a, env, eps) for a in node.args]
         f = node.func.id
         if f == "max":
             return np.maximum(args[0], args[1])
@@ -262,6 +279,9 @@ ENVS = [
     dict(x=np.float64(0.5), y=np.float64(-2.0), t=np.float64(0.0), a___b=np.float64(3.0)),
     dict(x=np.array([0.0, 1.0, -2.0, 0.5]), y=np.array([1.0, 0.0, 0.0, 2.0]), t=np.array([2000.0, 2000.25, 2000.5, 2000.75]), a___b=np.array([0.0, 0.0, 1.0, 4.0])),
     dict(x=np.array([0.0, 3.0]), y=np.float64(2.0), t=np.array([1.0, 2.0]), a___b=np.float64(0.0)),
+    # very small and very large magnitudes: "0 when the numerator is 0" means exactly 0, a tiny numerator is an ordinary number
+    dict(x=np.float64(2e-9), y=np.float64(8e-9), t=np.float64(1e-5), a___b=np.float64(-3e-10)),
+    dict(x=np.array([1e-9, 0.0, -4e-10, 1e-300]), y=np.array([4e-9, 2e-12, 0.0, 1e-290]), t=np.array([1e-5, 2e-4, 1e8, 1e-8]), a___b=np.array([0.0, 1e-15, 5e-9, 1e12])),
 ]
 
 
@@ -324,6 +344,9 @@ def run_semantics(case):
             try:
                 x2 = np.broadcast_to(np.asarray(ref_eval(tree, {k: v * (1 + 4e-16) for k, v in env.items()}), dtype=float), x.shape)
                 illc = ~(np.isclose(x, x2, rtol=1e-13, atol=0, equal_nan=True) | (x == x2))
+                for seed_ in (1, 2, 3, 4, 5, 6):
+                    x3 = np.broadcast_to(np.asarray(ref_eval(tree, env, [2.5e-16, seed_]), dtype=float), x.shape)
+                    illc = illc | ~(np.isclose(x, x3, rtol=1e-13 * (1 + 4 * s.count("(")), atol=0, equal_nan=True) | (x == x3))
             except Exception:
                 illc = np.zeros(x.shape, dtype=bool)
             # nan in the reference = undefined in real arithmetic: not compared.  An infinite reference (division of a non-zero number by zero, overflow) is
